@@ -186,7 +186,7 @@ def bodyOf (r : Resp) : Body := { code := r.code, etag := r.etag, payload := r.p
 Block2 option is the result; otherwise the first block must start at offset 0 (after the fix:
 whatever its more flag) and (after the fix) must not be larger than the block size the request
 `template` asked for, if it asked for one; without the more flag it is the result; with it, it
-must be number 0 and (after the fix) of valid size. -/
+must be number 0 and (after the fixes) of valid size and not empty. -/
 def completeBlock2 (cfg : Cfg) (template : Req) (initial : Resp) : Phase :=
   match initial.block2 with
   | none => .done (.ok (bodyOf initial))
@@ -198,7 +198,7 @@ def completeBlock2 (cfg : Cfg) (template : Req) (initial : Resp) : Phase :=
     else if szxGrows template b2 then .done (.error .unexpectedBlock2)
     else if !b2.more then .done (.ok (bodyOf initial))
     else if b2.num ≠ 0 then .done (.error .unexpectedBlock2)
-    else if !b2.validFor initial.payload.length then .done (.error .unexpectedBlock2)
+    else if !b2.okFor initial.payload.length then .done (.error .unexpectedBlock2)
     else enterB2 cfg template
       { code := initial.code, etag := initial.etag, payload := initial.payload, block2 := b2 }
 
@@ -240,9 +240,10 @@ def step (cfg : Cfg) : Phase → Resp → Phase
     | some b2 =>
       -- protocol.py:1207-1211 (a fix): RFC 7959 2.4, never larger blocks than requested
       if szxGrows cur b2 then .done (.error .unexpectedBlock2)
-      -- Message._append_response_block (message.py:476-500; the code comparison is a fix)
+      -- Message._append_response_block (message.py:480-510; the code comparison and the refusal
+      -- of an empty non-final block are fixes)
       else if r.code ≠ asm.code then .done (.error .unexpectedBlock2)   -- "Response code changed"
-      else if !b2.validFor r.payload.length then .done (.error .unexpectedBlock2)
+      else if !b2.okFor r.payload.length then .done (.error .unexpectedBlock2)
       else if b2.start ≠ asm.payload.length then .done (.error .notImplemented)
       else if r.etag ≠ asm.etag then .done (.error .resourceChanged)
       else
